@@ -39,6 +39,7 @@ ASSUMPTIONS = [
 
 LABELS = ["a", "b", "c", "a1", "b1", "ab", "A", "B1", 3, 7]
 PATTERNS = [
+    "A!", "A.*!", "[AB]1?!", ".*!",  # only match the names of the custom node class
     "a", "b1", "zz", "a.*", ".*1", "[ab].*", "a|b1", "(a|b).?", ".*", "[A-Z].*", "\\d", ".", "a1?",
     ["a.*", re.I], ["B1|AB", re.I], [".*", 0], ["a", re.I], ["b", 0], ["[ab]", re.I],
 ]
@@ -72,9 +73,20 @@ def _guid_cb(tree, data):
     return g if g is not None else hash(data)
 
 
+class ShoutingNode(Node):
+    """custom node class (Tree(factory=...)) whose `name` - the string that pattern searches match - is not str(data)"""
+
+    @property
+    def name(self):
+        return f"{self.data}".upper() + "!"
+
+
 def make_tree(case):
     """(tree, id-function of the tree's documented data_id rule)."""
     fln, typed = case.get("flavour", "str"), bool(case.get("typed"))
+    if fln == "factory":
+        tree, _nodes = build(case["spec"], flavour=Flavour("str"), tree=Tree("T", factory=ShoutingNode))
+        return tree, hash
     fl = Flavour(fln)
     if fln == "obj_cb":
         t = (TypedTree if typed else Tree)("T", calc_data_id=_guid_cb)
@@ -94,6 +106,9 @@ def run(case, rec):
 
 
 def check_queries(tree, rec, idf=hash, rebuild=None, nt=True):
+    # the documented name of a node is str(data); a custom node class may define another one
+    shouting = any(type(n) is ShoutingNode for n in tree)
+    namef = (lambda n: f"{n.data}".upper() + "!") if shouting else (lambda n: f"{n.data}")
     w = walk(tree)
     pre = w.pre
     ev = 0
@@ -154,7 +169,7 @@ def check_queries(tree, rec, idf=hash, rebuild=None, nt=True):
             else:
                 rx = re.compile(pat)
                 arg = pat
-            exp = [n for n in branch if rx.fullmatch(f"{n.data}")]
+            exp = [n for n in branch if rx.fullmatch(namef(n))]
             d = [sname, nm(start), add_self, pat]
             for k in LIMITS:
                 if k is not None and len(exp) > k:
@@ -376,7 +391,8 @@ def flavour_cases(draw, tier):
     spec = draw(gen.forest_specs(max_nodes=10, max_depth=4, max_width=4, min_nodes=1, alphabet=["a", "b", "c", "a1", "ab"],
                                  opts=gen.node_opts(explicit_ids=True, kinds=typed)))
     gen.fix_sibling_ids(spec, auto=lambda label: ("x", label))
-    return {"spec": spec, "typed": typed, "flavour": draw(st.sampled_from(["obj_cb", "obj_sub", "dc", "str"]))}
+    flavour = draw(st.sampled_from(["obj_cb", "obj_sub", "dc", "str", "factory"]))
+    return {"spec": spec, "typed": typed and flavour != "factory", "flavour": flavour}
 
 
 def run_requery(case, rec):
